@@ -342,8 +342,8 @@ class XMLResource(XMLResourceLoader):
 
     def get_arguments(self) -> dict[str, Any]:
         """Returns keyword arguments for rebuilding the XML resource."""
-        return {k: getattr(self, k) for k, v in self.__class__.__dict__.items()
-                if isinstance(v, Argument)}
+        return {k: getattr(self, k) for cls in reversed(self.__class__.__mro__)
+                for k, v in cls.__dict__.items() if isinstance(v, Argument)}
 
     def get_text(self) -> str:
         """
